@@ -424,4 +424,85 @@ func runC19(r *an.Run) {
 				}
 			}
 		})
+
+	r.Obl("outgoing-channel-restriction", "GUARD",
+		"nodeEdgeUnifier.addPolicy adds an edge of the source node only if no outgoing-channel restriction is set or the channel is in the restriction map; whether an edge is local is decided by fromNode == sourceNode; findPath builds the map from every entry of r.OutgoingChannelIDs and hands it to every unifier it creates; graph channels without an incoming policy are not added",
+		"an edge outside the restriction lets the first hop leave through a channel the caller excluded", 5,
+		func(o *an.Obl) {
+			f := p.Func(rt + "nodeEdgeUnifier.addPolicy")
+			var adds []an.Site
+			for _, v := range f.Graph().V {
+				as, ok := v.Node.(*ast.AssignStmt)
+				if ok && len(as.Lhs) == 1 && strings.HasSuffix(an.Text(as.Lhs[0]), ".edges") && isAppend(f, as.Rhs[0]) {
+					adds = append(adds, an.Site{Fn: f, V: v, Node: as})
+				}
+			}
+			if need(o, f, "append to unifier.edges", adds, 1) {
+				guarded(o, f, adds[0], an.AnyOf("not a local channel, no restriction, or channel in the restriction map",
+					an.Truth(an.LocalNamed("localChan"), false, ""),
+					an.IsNil(an.FieldPath(an.Recv(), "outChanRestr"), true, ""),
+					an.Truth(an.LocalNamed("ok"), true, "")))
+				guarded(o, f, adds[0], an.IsNil(an.Param(4), false, "hopPayloadSizeFn != nil"))
+			}
+			for _, s := range f.Assigns(an.LocalNamed("localChan"), false) {
+				if c := f.Canon(s.Node.(*ast.AssignStmt).Rhs[0]); c != "($p0 == $recv.sourceNode)" {
+					o.FailAt(f.ID+"#local", s.Where(), "an edge counts as local iff %s", c)
+				}
+			}
+			// membership test uses this edge's channel id
+			found := false
+			ast.Inspect(f.Body, func(n ast.Node) bool {
+				if ix, ok := n.(*ast.IndexExpr); ok && strings.HasSuffix(an.Text(ix.X), ".outChanRestr") {
+					found = true
+					if c := f.Canon(ix.Index); c != "$p1.ChannelID" {
+						o.FailAt(f.ID+"#restriction-key", f.Where(ix.Pos()), "the restriction map is indexed with %s", c)
+					}
+				}
+				return true
+			})
+			if !found {
+				o.FailAt(f.ID+"#restriction-lookup", f.Where(f.Body.Pos()), "addPolicy no longer consults the restriction map")
+			}
+			fp := p.Func(rt + "findPath")
+			n := 0
+			for _, s := range fp.Calls(an.CalleeIs(rt+"newNodeEdgeUnifier"), false) {
+				n++
+				c := s.Node.(*ast.CallExpr)
+				o.Site("%s", s.String())
+				if an.Text(c.Args[3]) != "outgoingChanMap" || an.Text(c.Args[0]) != "self" {
+					o.FailAt(fp.ID+"#unifier-args", s.Where(), "the unifier is created with source %s and restriction %s", an.Text(c.Args[0]), an.Text(c.Args[3]))
+				}
+			}
+			if n < 1 {
+				o.FailAt(fp.ID+"#unifier", fp.Where(fp.Body.Pos()), "findPath creates no edge unifier")
+			}
+			m := 0
+			for _, v := range fp.Graph().V {
+				as, ok := v.Node.(*ast.AssignStmt)
+				if !ok || len(as.Lhs) != 1 {
+					continue
+				}
+				if ix, ok := as.Lhs[0].(*ast.IndexExpr); ok && an.Text(ix.X) == "outgoingChanMap" {
+					m++
+					s := an.Site{Fn: fp, V: v, Node: as}
+					hdr := enclosingLoopHeader(fp, as)
+					o.Site("%s over %s", s.String(), hdr)
+					if !strings.HasSuffix(hdr, ".OutgoingChannelIDs") || !strings.HasPrefix(fp.Canon(ix.Index), "$elem(") {
+						o.FailAt(fp.ID+"#restriction-map", s.Where(), "the restriction map is filled from %s with key %s", hdr, fp.Canon(ix.Index))
+					}
+				}
+			}
+			if m != 1 {
+				o.FailAt(fp.ID+"#restriction-fill", fp.Where(fp.Body.Pos()), "expected one site filling the restriction map, found %d", m)
+			}
+			g := p.Func(rt + "nodeEdgeUnifier.addGraphPolicies")
+			for _, lf := range g.Lits {
+				for _, v := range lf.Graph().V {
+					as, ok := v.Node.(*ast.AssignStmt)
+					if ok && len(as.Lhs) == 1 && an.Text(as.Lhs[0]) == "channels" && isAppend(lf, as.Rhs[0]) {
+						guarded(o, lf, an.Site{Fn: lf, V: v, Node: as}, an.IsNil(an.FieldPath(an.Param(0), "InPolicy"), false, "channel.InPolicy != nil"))
+					}
+				}
+			}
+		})
 }
